@@ -85,7 +85,7 @@ class BloomDriver:
         from probables.hashes import default_fnv_1a
         if self._nh is None:
             self._nh = self.B(self.est, self.fpr).number_hashes
-        return (self.hf or default_fnv_1a)(key, self._nh)
+        return (self.hf if self.hf is not None else default_fnv_1a)(key, self._nh)
 
     def close(self):
         if self.kind == "ondisk" and self.obj is not None:
@@ -114,7 +114,7 @@ class BloomDriver:
                           lambda: f"{what}: check_alt(hashes({k!r})) is not True for an added key")
                 # a hash list computed for a larger depth starts with the same values (prefix stability, C18): still present
                 from probables.hashes import default_fnv_1a
-                longer = (self.hf or default_fnv_1a)(k, len(hs) + 3)
+                longer = (self.hf if self.hf is not None else default_fnv_1a)(k, len(hs) + 3)
                 if longer[: len(hs)] == hs:
                     ctx.check(self._o("member"), ctx.call(self._o("member"), o.check_alt, longer) is True,
                               lambda: f"{what}: check_alt(hashes({k!r}, depth={len(hs) + 3})) is not True for an added key")
@@ -187,7 +187,7 @@ class BloomDriver:
             # elements_added is documented as settable: from here on the documented value is what was assigned (+ later adds)
             if self.kind == "expanding":
                 return self.step(["add", op[1]])
-            v = op[1] % 50
+            v = op[1] % 50 if op[1] % 5 else 0  # 0 often: "nothing was added" according to the counter while cells are set
             qc = [c for c in getattr(self, "qcounts", []) if c != self.count]
             if op[1] % 2 and qc:
                 # rewind: the counter returns to a value it had at an EARLIER statistics query while the bits are those of now
